@@ -1444,8 +1444,10 @@ fn run_case_s<S: Strat>(case: &Case, trace: bool) -> Outcome {
     let ok = rt::run_to_completion(std::time::Duration::from_secs(20));
     if !ok {
         // watchdog: threads may be stuck; the process cannot continue reliably
+        // (a failure recorded before the threads got stuck is kept: an operation that really
+        // blocks is reported by the step oracle and then spins for ever in the abort phase)
         let st = rt::rt().m.lock().unwrap();
-        return Outcome { fail: None, budget: true, stats: st.stats.clone(), hs: HStats::default(), decisions: st.log.clone(), nodes: 0, objects: 0, reused: 0, trace: st.trace.clone(), hung: true };
+        return Outcome { fail: st.fail.clone(), budget: st.fail.is_none(), stats: st.stats.clone(), hs: HStats::default(), decisions: st.log.clone(), nodes: 0, objects: 0, reused: 0, trace: st.trace.clone(), hung: true };
     }
     for h in hs {
         let _ = h.join();
